@@ -62,7 +62,7 @@ CLAIMS = {
               "value slices of every leaf from the real parser vs the model; oracle: byte-level reconstruction. Two defects found by the "
               "oracle are repaired by fix: commits (stale layout_ahead after a shift; repeated layout parses)."),
         design_ref="5/C14",
-        note=TRUST + "; LayoutCert.check is a hypothesis evaluated per input, not derived from the grammar",
+        note=TRUST + "; LayoutCert.check is a hypothesis evaluated per input, not derived from the grammar; C14_construction_roundtrip (Props/C04Construction, audited by the C04 check): C14_roundtrip for every well-formed grammar over the table of the model construction, both certificate hypotheses discharged",
         technique="Lean 4 invariant proof (round trip) over executable byte-level model + differential correspondence + reconstruction oracle"),
     "C15": dict(
         category="proof",
@@ -315,7 +315,7 @@ CLAIMS = {
               "vs real LRParser on every node (span, line/col, value slice, layout), multi-line / CRLF / multi-byte inputs; oracle "
               "recomputes everything from the raw bytes for LR and for every tree of GLR forests."),
         design_ref="5/C13",
-        note=TRUST + "; the generated recognizers' `Some(s)` literal (F8) is only visible to compiled generated parsers (see C08/C10 harness)",
+        note=TRUST + "; the generated recognizers' `Some(s)` literal (F8) is only visible to compiled generated parsers (see C08/C10 harness); C13_construction_lr_spans (Props/C04Construction, audited by the C04 check): C13_lr_spans over every table of the model of LRTable::new with Cert.noShiftStop discharged by construction_no_shift_stop",
         technique="Lean 4 invariant proof over executable byte-level model + differential correspondence + byte-level span oracle"),
     "C18": dict(
         category="proof",
